@@ -53,6 +53,7 @@ partial def showV : V → String
   | .tup2 a b => "(" ++ showV a ++ ";" ++ showV b ++ ")"
   | .tup3 a b c => "(" ++ showV a ++ ";" ++ showV b ++ ";" ++ showV c ++ ")"
   | .dict es => "{" ++ showV es ++ "}"
+  | .ellipsis => "E"
   | .nil => "()"
   | .cons a b => "(" ++ ";".intercalate ((a :: (b.toList?.getD [])).map showV) ++ ")"
 
@@ -70,6 +71,7 @@ def showM : M V → String
 /-- argument tokens: `N`, `b0`/`b1`, `i<int>`, `q<text>`, `s<a>,<b>,<c>` with `_` for None -/
 def parseV? (s : String) : Option V :=
   if s = "N" then some .none
+  else if s = "E" then some .ellipsis
   else if s = "b0" then some (.bool false)
   else if s = "b1" then some (.bool true)
   else if s.startsWith "i" then (s.drop 1).toString.toInt?.map V.int
